@@ -38,7 +38,10 @@ ADDSETS = {
     "sinkK": ["vp_sink.K"],
     "mixed": ["collections.Counter", "argparse.Action", "vp_other.K"],
 }
-OPS = ["act:none", "act:counter", "act:sinkK", "act:mixed", "deact", "inst:counter", "inst:sinkK", "inst:none"]
+ADDSETS["variants"] = ["numpy._core.multiarray.scalar", "torch._utils._rebuild_qtensor", "collections.abc.Mapping",
+                       "_io.StringIO", "copyreg.__newobj__", "__main__.Other"]
+OPS = ["act:none", "act:counter", "act:sinkK", "act:mixed", "act:variants", "deact", "inst:counter", "inst:sinkK",
+       "inst:none", "inst:variants"]
 
 PROBES = {
     "collections.OrderedDict": b"ccollections\nOrderedDict\n)R.",      # in BASE
@@ -48,6 +51,14 @@ PROBES = {
     "vp_sink.K": b"cvp_sink\nK\n.",                                    # new module
     "vp_other.K": b"cvp_other\nK\n.",                                  # new module
     "collections.deque": b"ccollections\ndeque\n)R.",                  # never added
+    # variant spellings / new members of other listed modules (resolved only, never called; a module that is
+    # not installed simply fails to import *after* the allowlist decision, which still counts as allowed)
+    "numpy._core.multiarray.scalar": b"cnumpy._core.multiarray\nscalar\n.",
+    "numpy.core.multiarray.scalar": b"cnumpy.core.multiarray\nscalar\n.",
+    "torch._utils._rebuild_qtensor": b"ctorch._utils\n_rebuild_qtensor\n.",
+    "_io.StringIO": b"c_io\nStringIO\n.",
+    "copyreg.__newobj__": b"ccopyreg\n__newobj__\n.",
+    "__main__.Other": b"c__main__\nOther\n.",
 }
 STATIC_PICKLE = b"ccollections\nCounter\n)R."
 
@@ -79,7 +90,7 @@ def outcome(fn, U):
             if isinstance(x, U):
                 return "blocked"
             x, n = (x.__cause__ or x.__context__), n + 1
-        return f"other:{type(e).__name__}"
+        return "allowed"     # the allowlist let it through; the failure is the import / attribute lookup itself
 
 
 def static_answer(mods):
